@@ -60,7 +60,7 @@ func concurrentSmoke(scheme *k8sruntime.Scheme, r *u.Rng) (store []PodObs, clean
 		}
 	}
 	for i := 0; i < 64; i++ {
-		srv.dp = append(srv.dp, i%4)
+		srv.cur.dp = append(srv.cur.dp, i%4)
 	}
 	svc := newService(srv.ic)
 	ctx := context.Background()
